@@ -7,7 +7,9 @@ bind : S->C. TLC verifies Exact on every exported pair and exports (from, to, ex
        away from a seed). Each pair is instantiated as schema.Schema objects for MySQL, PostgreSQL and SQLite and given to the
        dialect's DefaultDiff.SchemaDiff in the CLI's comparison mode (DiffNormalized); the projected change list must equal the
        expected one as a multiset with the right kind flags; the same pair with permuted declaration order must give the same
-       set; self / deep-copy / permuted-copy diffs must be empty.
+       set; self / deep-copy / permuted-copy diffs must be empty. Type matrix: the model is parametric in its type ids, so the exported
+       ChangeType pairs are re-run with T1 / T2 bound to every ordered pair of a per-dialect catalogue of pairwise different concrete types
+       (28 MySQL, 36 PostgreSQL incl. arrays and user-defined types, 9 SQLite affinity classes).
 """
 import json
 import vf
@@ -19,7 +21,7 @@ def sig(m):
     def kind(x):
         p = x.split()
         return p[2] if len(p) > 2 and p[0] == "ModifyTable" else p[0]
-    return {"dialect": m["dialect"], "mode": m["mode"], "missing_kinds": sorted({kind(x) for x in missing}), "spurious_kinds": sorted({kind(x) for x in spurious}),
+    return {"dialect": m["dialect"], "mode": m["mode"], "types": m.get("types", ""), "missing_kinds": sorted({kind(x) for x in missing}), "spurious_kinds": sorted({kind(x) for x in spurious}),
             "error": bool(m.get("err"))}
 
 
@@ -74,7 +76,7 @@ def run(tier):
         v.violation(case, {"want": m["want"], "got": m["got"], "err": m.get("err"), "from": m["pair"]["from"], "to": m["pair"]["to"]})
     v.cov = {"states": stats["all"], "transitions": stats["all"], "traces_validated_against_impl": res["diffs"] - len(res["mismatches"]),
              "pairs_verified_exact_by_tlc": stats["all"], "single_edit_pairs": stats["pairs1"] + stats["pairs2"], "two_edit_pairs": stats["pairs12"],
-             "diffs_run": res["diffs"], "dialects": ["mysql", "postgres", "sqlite"], "change_classes_model": nclasses, "change_classes_exhibited": res["classes"],
+             "diffs_run": res["diffs"], "type_matrix_diffs": res.get("type_pairs", 0), "dialects": ["mysql", "postgres", "sqlite"], "change_classes_model": nclasses, "change_classes_exhibited": res["classes"],
              "exhaustive": True,
              "explanation": "states = (from,to) pairs on which TLC verified Exact; each pair diffed by 3 dialect differs in 4 modes (edit, edit with permuted declaration order, self, permuted self)"}
     v.samples = res["samples"][:2]
